@@ -14,7 +14,7 @@ import time
 
 ROOT = os.path.dirname(os.path.dirname(os.path.abspath(__file__)))
 BENIGN = os.path.join(ROOT, "benign")
-REPO = "/repo"
+REPO = os.environ.get("VERIF_REPO", "/repo")   # another tree (with a copy of /verif as ROOT) lets this run next to other runs
 CHECKS_FOR = {
     "utility_functions.py": ["C11", "C10"],
     "condition_nodes.py": ["C03", "C04", "C06"],
@@ -46,8 +46,8 @@ def sh(cmd):
 def main(argv):
     names = [a for a in argv if not a.startswith("--")] or sorted(f[:-5] for f in os.listdir(BENIGN) if f.endswith(".diff"))
     claimed = [c["property_id"] for c in json.load(open(os.path.join(ROOT, "MANIFEST.json")))["checks"]]
-    if sh("git -C /repo status --porcelain").stdout.strip():
-        print("refusing: /repo has uncommitted changes")
+    if sh(f"git -C {REPO} status --porcelain").stdout.strip():
+        print(f"refusing: {REPO} has uncommitted changes")
         return 2
     keep = tempfile.mkdtemp(prefix="evidence_keep_", dir=os.path.join(ROOT, "work"))
     shutil.copytree(os.path.join(ROOT, "evidence"), os.path.join(keep, "evidence"))
